@@ -42,12 +42,16 @@ INVS = ["TypeOK", "TreeConsistent", "UniqueNames", "FidsSound", "ListingSound"]
 PROPS = ["ErrorsChangeNothing", "ListingOnce"]
 
 # small configurations whose graphs are toured
+PERM = dict(NFids=1, Users={1, 3}, Groups={1}, OpenModes={0, 1, 2, 3, 16}, Names={"a"},
+            Feat={"api", "perm", "walk", "open", "create", "wstat"})
 CONFIGS = {
     # tree shape, walks incl. "..", create/remove through 9P, listings with every interesting count
-    "tree": consts(),
+    "tree": consts(Feat={"api", "find", "walk", "open", "create", "dread", "remove", "stat"}),
+    "tree1": consts(NFids=1, Feat={"api", "walk", "open", "create", "dread", "remove"}),     # quick: one fid
+    "walk2": consts(Feat={"api", "walk", "remove"}),                                         # walks to a new fid and in place
     # permissions: two users, owner/group/other words, walk/open/create under them, chmod through wstat and the API
-    "perm": consts(NNodes=3, NFids=1, Users={1, 3}, Groups={1, 3}, Modes={0o700, 0o070, 0o007, 0o755}, OpenModes={0, 1, 2, 3, 16},
-                   Feat={"api", "perm", "walk", "open", "create", "wstat"}, MaxWalk=2, Names={"a"}),
+    "perm": consts(NNodes=3, Modes={0o700, 0o070, 0o007}, MaxWalk=2, **PERM),
+    "perm2": consts(NNodes=2, Modes={0o700, 0o070, 0o007, 0o755}, MaxWalk=1, **PERM),         # quick
     # data path and op outcomes: read/write arguments and results, errors of every op, files without ops
     "io": consts(NNodes=2, NFids=1, Names={"a"}, OpenModes={0, 1, 2}, Outs={"ok", "err", "short"}, OpsChoices={True, False},
                  Feat={"api", "walk", "open", "io", "stat", "wstat", "remove", "create"}, MaxWalk=1),
@@ -71,12 +75,8 @@ def mismatch_key(m):
         nexp, ngot = len(exp.get("qids", [])), len(got.get("qids", []))
         kind = "full" if nexp == len(names) else ("none" if nexp == 0 else "partial")
         det = "inplace=%d:expect=%s:qids=%s" % (inplace, kind, "same" if nexp == ngot else ("more" if ngot > nexp else "fewer"))
-        if len(ctxv) >= 6:
-            det += ":fidmode=%o" % ctxv[2]
     elif op == "open":
         det = "mode=%d" % a[2]
-        if len(ctxv) >= 6:
-            det += ":filemode=%o:owner=%d:user=%d" % (ctxv[2], ctxv[3] == ctxv[5], ctxv[5])
     elif op == "dread":
         det = "restart=%d:whole=%d:entries=%s" % (bool(a[2]), bool(got.get("whole")),
                                                   "same" if len(got.get("ents", [])) == len(exp.get("ents", [])) else "differ")
@@ -155,7 +155,7 @@ class X01:
             if fn == "?":
                 ctx.inconclusive.append("engine %s panicked outside go9p: %s" % (name, m.group(1)[:200]))
                 break
-            what = act if isinstance(act, str) else (act[0] if act else "?")
+            what = re.sub(r":count=.*", "", act) if isinstance(act, str) else (act[0] if act else "?")
             ctx.violation("x01:server-crash:%s:%s" % (fn, what), "the server panicked (%s) executing %s in case %s of %s" % (m.group(1)[:160], act, case, name),
                           {"engine": run, "fscfg": json.loads(env["VERIF_FSCFG"]), "case": case, "act": act})
             ctx.log("server crashed in case %s (%s): %s in %s" % (case, act, m.group(1)[:100], fn))
@@ -171,7 +171,7 @@ class X01:
     def model_and_tour(self, name, c, dotu, sample):
         ctx = self.ctx
         c = dict(c, Dotu=dotu)
-        cfg = "fsrv_%s.cfg" % name
+        cfg = "fsrv_%s_%d.cfg" % (name, dotu)
         ctx.write_cfg(cfg, c, invariants=INVS, properties=PROPS, view="View")
         r, dot = ctx.tlc_dump_graph("Fsrv", cfg, timeout=900)
         self.states += r.distinct
@@ -183,11 +183,11 @@ class X01:
         init, adj = tour.load(dot)
         os.remove(dot)
         paths, cov, total = tour.cover(init, adj, seed=ctx.seed, sample_edges=sample, max_len=40)
-        bpath = ctx.path("beh_%s.ndjson" % name)
+        bpath = ctx.path("beh_%s_%d.ndjson" % (name, dotu))
         tour.write_behaviours(paths, bpath)
-        self.tour_stats[name] = {"edges": total, "edges_covered": cov, "paths": len(paths), "dotu": dotu}
+        self.tour_stats["%s:dotu=%d" % (name, dotu)] = {"edges": total, "edges_covered": cov, "paths": len(paths), "dotu": dotu}
         ctx.log("tour %s: %d paths cover %d of %d edges" % (name, len(paths), cov, total))
-        rep, tpath = self.engine("TestFsrvReplay", "replay:" + name, dotu, {"VERIF_BEHAVIOURS": bpath})
+        rep, tpath = self.engine("TestFsrvReplay", "replay:%s:dotu=%d" % (name, dotu), dotu, {"VERIF_BEHAVIOURS": bpath})
         self.trace_files[dotu].append(("replay:" + name, tpath, bpath))
 
     def model_only(self, name, c):
@@ -259,23 +259,25 @@ class X01:
     def run(self):
         ctx, q = self.ctx, self.q
         # 1+2: model checking and tours; dialects alternate between configurations
-        plan = [("tree", True, 1200 if q else None), ("perm", False, 1200 if q else None), ("io", True, 800 if q else None)]
-        if not q:
-            plan += [("tree", False, 6000), ("perm", True, 6000), ("io", False, 3000)]
+        if q:
+            plan = [("tree1", True, 4000), ("walk2", False, 3000), ("perm2", False, 4000), ("io", True, None)]
+        else:
+            plan = [("tree", True, None), ("tree1", False, None), ("walk2", False, None), ("walk2", True, None),
+                    ("perm", False, 60000), ("perm2", True, None), ("io", True, None), ("io", False, None)]
         for i, (name, dotu, sample) in enumerate(plan):
-            self.model_and_tour(name if i < 3 else name + "_b", CONFIGS[name], dotu, sample)
+            self.model_and_tour(name, CONFIGS[name], dotu, sample)
         if not q:
             for name, c in BIG_CONFIGS.items():
                 self.model_only(name, c)
         # 3: random histories, permission grid, requests outside the offset rule
         for dotu in (True, False):
-            gen = {"cases": (60 if q else 1500), "steps": (50 if q else 70), "names": RANDOM_NAMES, "users": [1, 2, 3], "groups": [1, 2, 3]}
+            gen = {"cases": (300 if q else 4000), "steps": (50 if q else 70), "names": RANDOM_NAMES, "users": [1, 2, 3], "groups": [1, 2, 3]}
             env = {"VERIF_GEN": json.dumps(gen)}
             if not dotu:
                 env["VERIF_FSCFG"] = json.dumps(self.fscfg(False, msize=1024, maxpend=4))
             rep, tpath = self.engine("TestFsrvRandom", "random:dotu=%d" % dotu, dotu, env, timeout=900)
             self.trace_files[dotu].append(("random", tpath, None))
-        grid = {"cases": (24 if q else 512), "steps": 0, "names": [], "users": [1, 2, 3], "groups": [1, 2, 3]}
+        grid = {"cases": (48 if q else 512), "steps": 0, "names": [], "users": [1, 2, 3], "groups": [1, 2, 3]}
         rep, tpath = self.engine("TestFsrvPermGrid", "permgrid", True, {"VERIF_GEN": json.dumps(grid)}, timeout=900)
         self.trace_files[True].append(("permgrid", tpath, None))
         for dotu in ((True,) if q else (True, False)):
@@ -328,9 +330,34 @@ def histories(cat, lines):
     return out
 
 
+def replay(ctx, x):
+    """--replay file: re-execute the recorded history (or, for a crash outside a history, the engine
+    that found it) on the current tree and judge it the same way."""
+    rec = json.load(open(ctx.replay))
+    rp = rec.get("replay") or {}
+    dotu = bool(rp.get("dotu", (rp.get("fscfg") or {}).get("dotu", True)))
+    if rp.get("history"):
+        bpath = ctx.path("beh_replay.ndjson")
+        with open(bpath, "w") as f:
+            f.write(json.dumps({"id": 1, "steps": [["Do", a] for a in rp["history"]]}) + "\n")
+        env = {"VERIF_BEHAVIOURS": bpath}
+        if rp.get("fscfg"):
+            env["VERIF_FSCFG"] = json.dumps(rp["fscfg"])
+        rep, tpath = x.engine("TestFsrvReplay", "replay:file", dotu, env)
+        x.trace_files[dotu].append(("replay:file", tpath, bpath))
+        x.validate(dotu)
+    else:
+        env = {}
+        if rp.get("fscfg"):
+            env["VERIF_FSCFG"] = json.dumps(rp["fscfg"])
+        x.engine(rp.get("engine", "TestFsrvHostile"), "replay:engine", dotu, env, max_restarts=400)
+    return {"states": 0, "transitions": 0, "traces_validated_against_impl": x.traces, "samples": x.samples[:1],
+            "evaluations": x.lines, "distinct_nontrivial": x.traces, "rule": "replay of " + os.path.basename(ctx.replay)}
+
+
 def run(ctx):
     x = X01(ctx)
-    cov = x.run()
+    cov = replay(ctx, x) if ctx.replay else x.run()
     return ctx.finish("model_checking", cov, assumptions=[
         "X01 is additional coverage beyond the listed properties; its contract is docs/fsrv.md",
         "requests are issued one at a time; the API is called while no request is in progress",
